@@ -141,16 +141,8 @@ func RunCheck(opt Options) int {
 	var jobs []*VCJob
 	var units []*UnitResult
 	undecided := []string{}
-	for _, s := range slots {
-		u := s.res
-		units = append(units, u)
-		if u.Error != "" {
-			undecided = append(undecided, fmt.Sprintf("unit=%s reason=%s", u.Name, u.Error))
-			continue
-		}
-		for _, m := range u.Undecided {
-			undecided = append(undecided, fmt.Sprintf("unit=%s reason=%s", u.Name, m))
-		}
+	jobsOf := func(u *UnitResult) []*VCJob {
+		var js []*VCJob
 		for i := range u.VCs {
 			o := &u.VCs[i]
 			if !vcRelevant(o, u.Props, opt.Property) {
@@ -161,14 +153,100 @@ func RunCheck(opt Options) int {
 					o.Assume = append(o.Assume, "(not "+kf.When+")")
 				}
 			}
-			jobs = append(jobs, &VCJob{Unit: u, Obl: o})
+			js = append(js, &VCJob{Unit: u, Obl: o})
 		}
+		return js
 	}
 	workDir := filepath.Join(opt.VerifDir, "work", opt.Property+"_"+opt.Tier)
 	os.RemoveAll(workDir)
 	s1, s2 := 3, 20
 	if opt.Tier == "thorough" {
 		s1, s2 = 5, 60
+	}
+	// A contract names the locals of its function. When a name no longer binds (the local was renamed), the other locals
+	// of the function that the contract does not mention are tried in its place; a binding is kept only if the unit then
+	// binds completely and every one of its obligations is discharged. Sound for any choice: all obligations, including
+	// initiation and preservation of every invariant, are proved under the binding that is kept.
+	var notes []string
+	for _, s := range slots {
+		if s.lem != nil || s.res == nil || s.res.Kind != "func" {
+			continue
+		}
+		missing := missingNames(s.res, cs.Funcs[s.key])
+		if len(missing) == 0 || len(missing) > 2 {
+			continue
+		}
+		cands := en.rebindCandidates(s.key, len(missing) == 1 && missing[0] == "idx")
+		if len(missing) == 1 && missing[0] == "idx" { // loop counters have short names: try those first
+			sort.SliceStable(cands, func(a, b int) bool { return len(cands[a]) < len(cands[b]) })
+		}
+		if os.Getenv("VERIF_DEBUG") != "" {
+			fmt.Fprintln(os.Stderr, "rebind", s.key, "missing", missing, "candidates", cands)
+		}
+		if len(cands) == 0 || len(cands) > 24 {
+			continue
+		}
+		var tries []map[string]string
+		if len(missing) == 1 {
+			for _, c := range cands {
+				tries = append(tries, map[string]string{missing[0]: c})
+			}
+		} else {
+			for _, c := range cands {
+				for _, d := range cands {
+					if c != d {
+						tries = append(tries, map[string]string{missing[0]: c, missing[1]: d})
+					}
+				}
+			}
+		}
+		proofs := 0 // binding attempts are cheap (no solver); attempts that bind completely go to the solvers, at most four
+		for n, alias := range tries {
+			if n >= 200 || proofs >= 4 {
+				break
+			}
+			u2 := en.runUnit(s.key, alias)
+			if os.Getenv("VERIF_DEBUG") != "" {
+				fmt.Fprintln(os.Stderr, "rebind try", alias, "error", u2.Error, "undecided", len(u2.Undecided), firstLine(strings.Join(u2.Undecided, " | ")))
+			}
+			if u2.Error != "" || len(u2.Undecided) > 0 {
+				continue
+			}
+			proofs++
+			js := jobsOf(u2)
+			Discharge(js, filepath.Join(workDir, fmt.Sprintf("rebind_%s_%d", sanitize(u2.Name), n)), s1, s2, false)
+			ok := len(js) > 0
+			for _, j := range js {
+				if j.Status != "unsat" {
+					ok = false
+				}
+			}
+			if ok {
+				var parts []string
+				for k, v := range alias {
+					parts = append(parts, fmt.Sprintf("%s -> %s", k, v))
+				}
+				sort.Strings(parts)
+				notes = append(notes, fmt.Sprintf("unit=%s contract names rebound to renamed locals (%s); every obligation of the unit re-proved under this binding", u2.Name, strings.Join(parts, ", ")))
+				s.res = u2
+				break
+			}
+		}
+	}
+	for _, n := range notes {
+		fmt.Printf("NOTE property=%s %s\n", opt.Property, n)
+	}
+	for _, s := range slots {
+		u := s.res
+		units = append(units, u)
+		if u.Error != "" {
+			undecided = append(undecided, fmt.Sprintf("unit=%s reason=%s", u.Name, u.Error))
+			continue
+		}
+		for _, m := range u.Undecided {
+			undecided = append(undecided, fmt.Sprintf("unit=%s reason=%s", u.Name, m))
+		}
+		jobs = append(jobs, jobsOf(u)...)
 	}
 	Discharge(jobs, workDir, s1, s2, opt.Tier == "thorough")
 
